@@ -300,6 +300,8 @@ class Machine:
             return ('err', 'end', 'the cursor is at the end of the buffer and another token is read')
         cls, raw = toks[ti]
         b = max(depth - 1, 0)
+        if b >= len(levels):
+            return ('err', 'state', 'the current level lies outside the state array (depth %d, max_depth %d)' % (depth, md))
         flags, adepth, ctype, nametok = levels[b]
         key = (self.tokclass(raw[0]), flags, depth == 0, bool(lookup))
         bymode = self.table.get(key)
@@ -424,6 +426,8 @@ class Machine:
         """a call of the token loop -> ('ok', st', r) | ('err', ...)"""
         ti, depth, levels = st
         O = depth
+        if max(depth - 1, 0) >= len(levels):
+            return ('err', 'state', 'the current level lies outside the state array (depth %d)' % depth)
         AO = levels[max(depth - 1, 0)][1]
         for _ in range(len(doc[0]) + 4):
             r = self.step(doc, st, mode, O, AO, lookup, want)
